@@ -167,7 +167,8 @@ def seeds() -> dict[str, list[bytes]]:
         "NetworkAddressV2": [bytes.fromhex("61bc6649000210000000000000000000000000000000010000")],
     }
     sig = dsa.sign_(bytes(32), 1)
-    s["dsa.Sig"] = [sig.serialize()]
+    # (small scalars too: a one-byte r or s is where a padding rule is off by one)
+    s["dsa.Sig"] = [sig.serialize(), dsa.Sig(1, 1).serialize(), dsa.Sig(0x7F, 0x80).serialize(), dsa.Sig(0x81, 0xFFFF).serialize(), dsa.Sig(0x1234, 5).serialize(), dsa.Sig(0x8001, 0x7FFF).serialize()]
     s["ssa.Sig"] = [ssa.sign_(bytes(32), 1, bytes(32)).serialize()]
     s["bms.Sig"] = [bms.sign(b"msg", "KwdMAjGmerYanjeui5SHS7JkmpZvVipYvB2LJGU1ZxJwYvP98617").serialize()]
     from btclib.bip32.bip32 import BIP32KeyData
@@ -241,6 +242,15 @@ def mutations(s: bytes, rnd: random.Random, budget: int) -> list[bytes]:
             out.append(s[:i] + b"\xfe" + bytes([s[i], 0, 0, 0]) + s[i + 1:])
         out.append(s[:i] + s[i + 1:])
         out.append(s[:i] + s[i:i + 1] + s[i:])
+    if n <= 80:
+        # a length byte grown by one with a zero inserted after it (the padding a tag-length-value or length-prefixed field must refuse),
+        # alone and with the enclosing length at offset 1 grown too
+        for i in range(n):
+            if s[i] < 0xFC:
+                grown = s[:i] + bytes([s[i] + 1, 0]) + s[i + 1:]
+                out.append(grown)
+                if i > 1 and grown[1] < 0xFC:
+                    out.append(grown[:1] + bytes([grown[1] + 1]) + grown[2:])
     uniq = list(dict.fromkeys(out))
     if len(uniq) > budget:
         # never sampled away: the object itself and every position bumped by one (a count, a flag, a length, a version that moves by one is the
@@ -531,6 +541,62 @@ def short_strings(run: Run, maxlen: int) -> list[bytes]:
     return out
 
 
+def record_limits(evs: list[dict[str, Any]], thorough: bool) -> int:
+    """Objects with as many elements as a count field can carry: at the width boundaries of a CompactSize and at (and one past) every limit the
+    library declares.  Whatever the constructor and serializer accept must parse back to an equal object; too large to hand to TLC as bytes,
+    so the event carries the three observations (built, parsed, same) and the law is the specification's."""
+    from btclib.block.block_header import BlockHeader  # noqa: F401
+    from btclib.p2p import limits as pl
+    from btclib.p2p.address import Addr, TimestampedNetworkAddress
+    from btclib.p2p.addrv2 import AddrV2, NetworkAddressV2
+    from btclib.p2p.inventory import GetBlocks, GetData, Headers, Inv, Inventory, InventoryType
+    from btclib.script.witness import Witness
+    from btclib.tx import OutPoint, Tx, TxIn, TxOut
+    from btclib.tx.limits import MAX_TX_IN_COUNT, MAX_TX_OUT_COUNT
+
+    h32 = bytes(range(32))
+    one_in = [TxIn(OutPoint(h32, 0), b"", 0xFFFFFFFF)]
+    one_out = [TxOut(1, b"\x51")]
+    inv = Inventory(InventoryType.MSG_TX, h32)
+    block170 = seeds()["Headers"][0][1:81]
+    hdr = BlockHeader.parse(block170)
+    tna = TimestampedNetworkAddress.parse(seeds()["TimestampedNetworkAddress"][0])
+    nav2 = NetworkAddressV2.parse(seeds()["NetworkAddressV2"][0])
+    widths = [252, 253] + ([65535, 65536] if thorough else [])
+    cases: list[tuple[str, str, int, Any, Any]] = []
+    for n in sorted(set(widths + [MAX_TX_OUT_COUNT - 1, MAX_TX_OUT_COUNT, MAX_TX_OUT_COUNT + 1, MAX_TX_IN_COUNT, MAX_TX_IN_COUNT + 1])):
+        cases.append(("Tx", "outputs", n, lambda n=n: Tx(2, 0, one_in, [TxOut(1 + (j & 1), b"\x51") for j in range(n)]), Tx.parse))
+    for n in sorted(set(widths[:2] + [MAX_TX_IN_COUNT - 1, MAX_TX_IN_COUNT, MAX_TX_IN_COUNT + 1])):
+        cases.append(("Tx", "inputs", n, lambda n=n: Tx(2, 0, [TxIn(OutPoint(h32, j), b"", 0xFFFFFFFF) for j in range(n)], one_out), Tx.parse))
+    for n in widths[:2] + [1000, 65535 if thorough else 2000]:
+        cases.append(("Witness", "items", n, lambda n=n: Witness([bytes([j & 0xFF]) for j in range(n)]), Witness.parse))
+    for cls, what, lim, mk in (("Inv", "inventories", pl.MAX_INV_SZ, lambda n: Inv([inv] * n)), ("GetData", "inventories", pl.MAX_INV_SZ, lambda n: GetData([inv] * n)),
+                               ("Headers", "headers", pl.MAX_HEADERS_RESULTS, lambda n: Headers([hdr] * n)), ("Addr", "addresses", pl.MAX_ADDR_TO_SEND, lambda n: Addr([tna] * n)),
+                               ("AddrV2", "addresses", pl.MAX_ADDR_TO_SEND, lambda n: AddrV2([nav2] * n)),
+                               ("GetBlocks", "locator hashes", pl.MAX_LOCATOR_SZ, lambda n: GetBlocks(70016, [h32] * n, h32))):
+        for n in sorted({0, 1, 252, 253, lim - 1, lim, lim + 1}):
+            cases.append((cls, what, n, lambda n=n, mk=mk: mk(n), {"Inv": Inv, "GetData": GetData, "Headers": Headers, "Addr": Addr, "AddrV2": AddrV2, "GetBlocks": GetBlocks}[cls].parse))
+    k = 0
+    for cls, what, n, build, parse in cases:
+        built = parsed = same = False
+        try:
+            obj = build()
+            raw = obj.serialize(include_witness=True) if cls == "Tx" else obj.serialize()
+            built = True
+        except Exception:  # noqa: BLE001   (a refusal to build or write is allowed: the law is about what was written)
+            raw = b""
+        if built:
+            try:
+                back = parse(raw)
+                parsed = True
+                same = bool(back == obj) and (back.serialize(include_witness=True) if cls == "Tx" else back.serialize()) == raw
+            except Exception:  # noqa: BLE001
+                pass
+        evs.append({"op": "big", "cls": cls, "what": what, "n": n, "built": built, "parsed": parsed, "same": same})
+        k += 1
+    return k
+
+
 def check(run: Run) -> None:
     thorough = run.tier == "thorough"
     rnd = random.Random(run.seed)
@@ -571,6 +637,9 @@ def check(run: Run) -> None:
         record_class(run, c, seed_map[name], rnd, budget, evs)
     record_json(run, codecs, seed_map, evs)
     record_psbt(run, rnd, 200 if thorough else 40, evs)
+    n_big = record_limits(evs, thorough)
+    if sum(1 for e in evs if e["op"] == "big" and e["built"]) < n_big // 2:
+        raise tlc.TLCFailure("C05: the boundary-count objects could not be built (harness)")
     if missing:
         run.note("classes with parse/serialize but no seed encoding in the harness (not exercised): " + ", ".join(missing))
     results, bad, diag = events.validate("C05Trace", evs, batch=8000)
@@ -581,6 +650,8 @@ def check(run: Run) -> None:
         d = diag.get(k) or {}
         failing = sorted(kk for kk, vv in d.items() if vv is False and kk != "grammar") if isinstance(d, dict) else []
         key = f"wire|{e['cls']}|{e['op']}|{'+'.join(failing)}"
+        if e["op"] == "big":
+            key += f"|{e['what']}"
         if e["op"] == "parse":
             key += f"|strict={e.get('strict')}|accepted={e['accepted']}"
         if e.get("variant"):
@@ -593,7 +664,7 @@ def check(run: Run) -> None:
     run.sample({"short strings": [b.hex() for b in strings[:8]]})
     run.section("classes", {"discovered": len(codecs), "with_seeds": len([c for c in codecs if c in seed_map]), "grammar_classes": sorted(GRAMMAR),
                             "events": len(evs), "short_string_events": n_short, "accepted_encodings": acc_mut,
-                            "by_op": {op: sum(1 for e in evs if e["op"] == op) for op in ("parse", "rt", "obj", "json", "psbt")}})
+                            "by_op": {op: sum(1 for e in evs if e["op"] == op) for op in ("parse", "rt", "obj", "json", "psbt", "big")}})
     run.count(evaluations=len(evs), validated=len(evs), nontrivial=len({e["b"] for e in evs if e["op"] in ("parse", "rt", "psbt") and e["accepted"]}))
 
 
